@@ -4,7 +4,7 @@ from lib import histprops as P
 
 
 def gen(rng, tier):
-    n = 260 if tier == "quick" else 12000
+    n = 2000 if tier == "quick" else 40000
     return [G.gen_history(rng, "a%d" % i, profile="autocommit", reopen_p=0.0) for i in range(n)]
 
 
